@@ -194,7 +194,6 @@ func TestVerif_C05_Kernels(t *testing.T) {
 	})
 }
 
-
 // The key-length rule must hold on every dispatch path: accelerated, and portable (candoAsm forced off).
 func TestVerif_C05_KeySizeBothPaths(t *testing.T) {
 	rec := stats.Get("C05", "keysize-paths")
